@@ -128,6 +128,7 @@ struct Gen
   int depth{0};
   bool printable_only{false}; // unordered containers: elements must not contain the separators the oracle splits on
   bool no_null{false};
+  bool ascii_classes{false}; // strings for the custom-predicate runs: alnum only / + | " % / + a control, tab or high byte
   long force_count{-1}; // >= 0: element count of the top-level sequence container(s) of the value (boundary cases)
 };
 
@@ -135,6 +136,22 @@ struct Gen
 inline std::string gen_bytes(Gen& g, bool allow_nul)
 {
   static size_t const lens[] = {0, 1, 2, 3, 7, 8, 15, 16, 31, 63, 64, 255, 256, 300, 1000};
+  if (g.ascii_classes)
+  {
+    // the rejected bytes of a message are (a) none, (b) printable ASCII only (| " %), (c) also a control / tab / high byte
+    uint32_t k = g.rng.below(3);
+    size_t len = 1 + g.rng.below(14);
+    std::string r;
+    for (size_t i = 0; i < len; ++i) r.push_back("abcdefghijklmnopqrstuvwxyzABCDEFGHIJKLMNOPQRSTUVWXYZ0123456789_ .,:"[g.rng.below(67)]);
+    if (k >= 1)
+      for (uint32_t j = 0, m = 1 + g.rng.below(3); j < m; ++j) r[g.rng.below(static_cast<uint32_t>(r.size()))] = "|\"%"[g.rng.below(3)];
+    if (k == 2)
+    {
+      static unsigned char const ctl[] = {0x01, 0x09, 0x0d, 0x1b, 0x7f, 0x80, 0xe9, 0xff};
+      r.insert(r.begin() + g.rng.below(static_cast<uint32_t>(r.size() + 1)), static_cast<char>(ctl[g.rng.below(sizeof(ctl))]));
+    }
+    return r;
+  }
   uint32_t cls = g.rng.below(10);
   size_t n = cls == 0 ? 0 : (cls < 7 ? g.rng.below(12) : lens[g.rng.below(sizeof(lens) / sizeof(lens[0]))]);
   if (g.depth > 1 && n > 40) n = n % 40;
@@ -736,6 +753,88 @@ struct Sh<std::unordered_set<K>> : ShSetLike<std::unordered_set<K>, K, true>
   }
 };
 
+/** comparators other than std::less: the container iterates — and is encoded — in THEIR order */
+struct ByLastDigit // user comparator on an arithmetic key: last decimal digit first, then the value
+{
+  bool operator()(int32_t a, int32_t b) const noexcept
+  {
+    int const da = static_cast<int>(((a % 10) + 10) % 10), db = static_cast<int>(((b % 10) + 10) % 10);
+    return da != db ? da < db : a < b;
+  }
+};
+struct SvDesc // stateless user comparator the rebound set<std::string_view, …> accepts: descending
+{
+  bool operator()(std::string_view a, std::string_view b) const noexcept { return a > b; }
+};
+struct CStrDesc // like the CStringComparator of the library's own tests, descending
+{
+  bool operator()(char const* a, char const* b) const noexcept { return std::strcmp(a, b) > 0; }
+};
+/** oracle side of an ordered container with a non-default order: the expected elements in the ITERATION order of the
+    source, formatted by fmt as a set (`key_type` makes it one): what call-site formatting of the source prints */
+template <class T>
+struct SeqAsSet
+{
+  using key_type = T;
+  using value_type = T;
+  std::vector<T> v;
+  auto begin() const { return v.begin(); }
+  auto end() const { return v.end(); }
+};
+template <class C, class K, bool Multi>
+struct ShOrderedSet
+{
+  static constexpr bool hexable = Sh<K>::hexable;
+  static constexpr bool view_ok = Sh<K>::view_ok;
+  static constexpr bool unordered = false;
+  static std::string shape() { return "q(" + Sh<K>::shape() + ")"; }
+  static void gen(Gen& g, C& out)
+  {
+    size_t n = gen_count(g);
+    bool nn = g.no_null;
+    g.no_null = true;
+    ++g.depth;
+    for (size_t i = 0; i < n; ++i)
+    {
+      K e;
+      Sh<K>::gen(g, e);
+      if constexpr (std::is_floating_point_v<K>)
+        if (e != e) e = static_cast<K>(0); // NaN is not ordered by any comparator
+      out.insert(e);
+      if (Multi && g.rng.coin(1, 3)) out.insert(e);
+    }
+    --g.depth;
+    g.no_null = nn;
+  }
+  static std::string val(C const& v)
+  {
+    std::string r;
+    bool first = true;
+    for (auto const& e : v)
+    {
+      if (!first) r += ",";
+      first = false;
+      r += val_of<K>(e);
+    }
+    return "Qset(" + Sh<K>::shape() + ";" + r + ")";
+  }
+  static SeqAsSet<expect_t<K>> expect(C const& v)
+  {
+    SeqAsSet<expect_t<K>> r;
+    for (auto const& e : v) r.v.push_back(Sh<K>::expect(e));
+    return r;
+  }
+  static void scribble(C&) {}
+};
+template <class K, class Cmp>
+struct Sh<std::set<K, Cmp>, std::enable_if_t<!std::is_same_v<Cmp, std::less<K>>>> : ShOrderedSet<std::set<K, Cmp>, K, false>
+{
+};
+template <class K, class Cmp>
+struct Sh<std::multiset<K, Cmp>> : ShOrderedSet<std::multiset<K, Cmp>, K, true>
+{
+};
+
 template <class C, class K, class V, bool Unordered>
 struct ShMapLike
 {
@@ -1168,6 +1267,11 @@ struct Vw<std::set<T, C, A>>
 {
   static std::string val(std::set<T, C, A> const& v) { return vw_range(v.begin(), v.end()); }
 };
+template <class T, class C, class A>
+struct Vw<std::multiset<T, C, A>>
+{
+  static std::string val(std::multiset<T, C, A> const& v) { return vw_range(v.begin(), v.end()); }
+};
 template <class T, class H, class E, class A>
 struct Vw<std::unordered_set<T, H, E, A>>
 {
@@ -1268,24 +1372,42 @@ struct RecSink : quill::Sink
 {
   std::vector<std::string> msgs;
   std::vector<std::string> statements;
+  std::vector<std::string> named; // "key=value" of the named arguments, joined by 0x1f
   void write_log(quill::MacroMetadata const*, uint64_t, std::string_view, std::string_view, std::string const&,
                  std::string_view, quill::LogLevel, std::string_view, std::string_view,
-                 std::vector<std::pair<std::string, std::string>> const*, std::string_view msg, std::string_view stmt) override
+                 std::vector<std::pair<std::string, std::string>> const* named_args, std::string_view msg, std::string_view stmt) override
   {
     msgs.emplace_back(msg);
     statements.emplace_back(stmt);
+    std::string nv;
+    if (named_args)
+      for (auto const& kv : *named_args) nv += (nv.empty() ? "" : "\x1f") + kv.first + "=" + kv.second;
+    named.emplace_back(std::move(nv));
   }
   void flush_sink() override {}
 };
 
-/** reference sanitiser of the oracle (independent of quill and of the Lean model) */
+/** `check_printable_char` predicates: the library's default, one STRICTER inside printable ASCII, one LAXER outside it.
+    The predicate is the user's input: the same function is given to BackendOptions and to the reference sanitiser. */
+inline bool pred_default(unsigned char c) { return (c >= 0x20 && c <= 0x7e) || c == 0x0a; }
+inline bool pred_strict(unsigned char c) { return pred_default(c) && c != '|' && c != '"' && c != '%'; }
+inline bool pred_lax(unsigned char c) { return pred_default(c) || c == 0x09 || c >= 0x80; }
+using RefPred = bool (*)(unsigned char);
+inline RefPred& ref_pred()
+{
+  static RefPred p = pred_default;
+  return p;
+}
+/** reference sanitiser of the oracle (independent of quill and of the Lean model): every byte the predicate rejects
+    becomes \xHH, every other byte is kept */
 inline std::string sanitize_ref(std::string const& s)
 {
   std::string r;
   char buf[8];
+  RefPred const ok = ref_pred();
   for (unsigned char c : s)
   {
-    if ((c >= 0x20 && c <= 0x7e) || c == 0x0a)
+    if (ok(c))
       r.push_back(static_cast<char>(c));
     else
     {
@@ -1294,5 +1416,13 @@ inline std::string sanitize_ref(std::string const& s)
     }
   }
   return r;
+}
+/** the predicate as a 256-bit table for the line protocol: bit `c % 8` of byte `c / 8` */
+inline std::string pred_table(RefPred ok)
+{
+  unsigned char t[32] = {};
+  for (int c = 0; c < 256; ++c)
+    if (ok(static_cast<unsigned char>(c))) t[c / 8] = static_cast<unsigned char>(t[c / 8] | (1u << (c % 8)));
+  return hex(t, sizeof(t));
 }
 } // namespace cs
